@@ -656,7 +656,7 @@ def regen_translator(run, name):
     ok, out = build_vh()
     if not ok:
         raise RuntimeError("harness does not build against /repo:\n" + out[-3000:])
-    rc, out = sh([os.path.join(BUILD, "bin", "vh"), name], env=GOENV, cwd=HARNESS, timeout=600)
+    rc, out = sh([os.path.join(BUILD, "bin", "vh"), name, "-out", os.path.join(COQ, "theories", "Gen")], env=GOENV, cwd=HARNESS, timeout=600)
     if rc != 0:
         raise RuntimeError("translator %s failed:\n%s" % (name, out[-3000:]))
     run.log("translator: " + out.strip().split("\n")[-1])
@@ -2019,7 +2019,7 @@ def setup():
         print(out)
         return 1
     for tr in ("mapsites", "panicsites", "access", "holes"):
-        rc, out = sh([os.path.join(BUILD, "bin", "vh"), tr], env=GOENV, cwd=HARNESS, timeout=900)
+        rc, out = sh([os.path.join(BUILD, "bin", "vh"), tr, "-out", os.path.join(COQ, "theories", "Gen")], env=GOENV, cwd=HARNESS, timeout=900)
         print("translator %s: %s" % (tr, out.strip().split("\n")[-1] if out.strip() else rc))
     if not os.path.exists(os.path.join(COQ, "Makefile")):
         sh("coq_makefile -f _CoqProject -o Makefile", cwd=COQ)
